@@ -68,6 +68,28 @@ def bad_values(o, reg, rng):
         out.append(('trailing_junk', '3x'))
         other = rng.choice([p for p in reg if p['type'] in ('enum', 'bool')])
         out.append(('incompatible_ref', other['name']))
+        # a reference (plain or negated) whose value is valid for the referenced option but not for this one
+        nums = [p for p in reg if p['type'] == 'num' and p['name'] != o['name']]
+
+        def accepts(p, v):
+            plo = p['min'] if p['min'] is not None else (0 if not p['default'].startswith('-') else -(1 << 30))
+            phi = p['max'] if p['max'] is not None else (1 << 30)
+            return plo <= v <= phi
+        if hi is not None:
+            cand = [p for p in nums if accepts(p, hi + 1)]
+            if cand:
+                out.append(('ref_above_max', rng.choice(cand)['name'], '', hi + 1))
+            if hi + 1 <= 64:
+                cand = [p for p in nums if accepts(p, -(hi + 1))]
+                if cand:
+                    out.append(('negref_above_max', rng.choice(cand)['name'], '-', -(hi + 1)))
+        if lo is not None:
+            cand = [p for p in nums if accepts(p, -lo + 1)]
+            if cand:
+                out.append(('negref_below_min', rng.choice(cand)['name'], '-', -lo + 1))
+            cand = [p for p in nums if accepts(p, lo - 1)]
+            if cand:
+                out.append(('ref_below_min', rng.choice(cand)['name'], '', lo - 1))
     elif t in ('enum', 'bool'):
         out.append(('word', 'banana'))
         out.append(('number', '7'))
@@ -85,12 +107,17 @@ def bad_values(o, reg, rng):
 
 def do_badline(case):
     """case = (seed, option name, defect class, value)"""
-    seed, name, dclass, value = case
+    seed, name, dclass, value = case[:4]
+    prelude = case[4] if len(case) > 4 else ''
     rng = random.Random(seed)
     g = good_config(rng)
     g.pop(name, None)
     lines = ['%s = %s' % kv for kv in g.items()]
     i = rng.randint(0, len(lines))
+    if prelude:
+        g.pop(prelude.split()[0], None)
+        lines = [prelude] + ['%s = %s' % kv for kv in g.items()]
+        i = rng.randint(1, len(lines))
     bad = '%s = %s' % (name, value)
     with_l = lines[:i] + [bad] + lines[i:]
     fails = []
@@ -409,8 +436,12 @@ def main(ctx):
     for o in reg:
         if o['type'] == 'str':
             continue
-        for dclass, v in bad_values(o, reg, rng):
-            cs.append(('badline', (rng.randrange(1 << 30), o['name'], dclass, v)))
+        for bv in bad_values(o, reg, rng):
+            if len(bv) == 2:
+                cs.append(('badline', (rng.randrange(1 << 30), o['name'], bv[0], bv[1])))
+            else:
+                dclass, pname, prefix, pval = bv
+                cs.append(('badline', (rng.randrange(1 << 30), o['name'], dclass, prefix + pname, '%s = %d' % (pname, pval))))
             nbad += 1
     # unknown names near real ones
     near = reg if ctx.tier == 'thorough' else rng.sample(reg, 200)
